@@ -88,6 +88,9 @@ func (ctx *Ctx) cloop(node *node, tpl *Tpl, w io.Writer) {
 			ctx.Err = err
 			return
 		}
+		// The iteration is over without an error of its own: what a tag of the body merely left in ctx.Err (a modifier
+		// that failed in a print tag is not fatal) is not the error of this loop.
+		ctx.Err = nil
 
 		// Modify counter var.
 		switch node.loopCntOp {
